@@ -3486,6 +3486,7 @@ class __implementations__:
     def reshape(arg: Array, newshape):
         if isinstance(newshape, numbers.Integral):
             newshape = newshape,
+        newshape = tuple(newshape)
         if -1 in newshape:
             i = newshape.index(-1)
             if -1 in newshape[i+1:]:
